@@ -4,7 +4,9 @@ EXTENDS Exchange, Json, IOUtils, SequencesExt
 CONSTANT Mode
 A == 97
 PrimStrs == {<<A>>, <<A, 98>>, <<>>, <<A, COMMA, 98>>, <<A, DOT, 98>>, <<A, SEMI, 98>>, <<A, EQ, 98>>, <<A, PIPE, 98>>, <<A, 32, 98>>,
-             <<195, 169>>, <<PCT, 52, 49>>, <<A, 47, 98>>, <<A, AMP, 98>>, <<43>>, <<63>>, <<35>>, <<A, LBR, 98, 93>>, <<DOT>>, <<SEMI, A>>, <<32, A>>, <<A, 32>>, <<9, A>>}
+             <<195, 169>>, <<PCT, 52, 49>>, <<A, 47, 98>>, <<A, AMP, 98>>, <<43>>, <<63>>, <<35>>, <<A, LBR, 98, 93>>, <<DOT>>, <<SEMI, A>>, <<32, A>>, <<A, 32>>, <<9, A>>,
+             \* a plus sign next to a byte that makes the client escape the path ('/', ',', ';')
+             <<43, 47, 98>>, <<A, 43, COMMA, 98>>, <<A, 43, 98, SEMI, 99>>}
 Ints == {0, 7, 0 - 1}
 Arrs == {<<Str(<<A>>)>>, <<Str(<<A>>), Str(<<98>>)>>, <<>>, <<Str(<<>>)>>, <<Str(<<A, COMMA, 98>>)>>, <<Str(<<A>>), Str(<<>>)>>, <<Str(<<A, PIPE, 98>>)>>,
          <<Str(<<A, 32, 98>>), Str(<<195, 169>>)>>, <<Str(<<A, DOT, 98>>)>>, <<Str(<<A, SEMI, 98>>), Str(<<A>>)>>, <<Str(<<A, EQ, 98>>)>>, <<Str(<<A, AMP, 98>>), Str(<<PCT, 52, 49>>)>>}
@@ -15,9 +17,13 @@ ValsOf(shape, ty) ==
     [] shape = "prim" /\ ty = "int" -> {IntV(n) : n \in Ints}
     [] shape = "prim" /\ ty = "num" -> {NumT(x) : x \in {"0.5", "-2.5", "0", "1e-11", "3.141592653589793", "1e+21", "1.23456789125e+08", "1.0000000000001"}}
     [] shape = "prim" /\ ty = "dt" -> {TimeT(x) : x \in {"2020-01-02T03:04:05Z", "2020-01-02T03:04:05.5Z", "1999-12-31T23:59:59.999999999Z"}}
+    \* format: date -- the value is a calendar day (written here as its UTC midnight); the harness
+    \* hands the generated client the same day as a time.Time in other zones, where the instant
+    \* falls on the neighbouring UTC day
+    [] shape = "prim" /\ ty = "date" -> {TimeT(x) : x \in {"2024-03-01T00:00:00Z", "2024-12-31T00:00:00Z", "2020-02-29T00:00:00Z"}}
     [] shape = "arr" -> {Arr(a) : a \in Arrs}
     [] shape = "obj" -> {Obj(o) : o \in Objs}
-Rows == {[c |-> c, ty |-> ty] : c \in {x \in AllCfgs : Admitted(x)}, ty \in {"str", "int", "num", "dt"}} \ {r \in [c : AllCfgs, ty : {"int", "num", "dt"}] : r.c.shape # "prim"}
+Rows == {[c |-> c, ty |-> ty] : c \in {x \in AllCfgs : Admitted(x)}, ty \in {"str", "int", "num", "dt", "date"}} \ {r \in [c : AllCfgs, ty : {"int", "num", "dt", "date"}] : r.c.shape # "prim"}
 Bodies == {Obj(<<IntV(1), s, on, l>>) : s \in {Absent, Str(<<120>>), Str(<<>>)}, on \in {Absent, Null, Str(<<121>>)}, l \in {Absent, Arr(<<>>), Arr(<<IntV(1), IntV(2)>>)}}
 FormStrs == {Str(<<120>>), Str(<<A, 32, 98>>), Str(<<A, AMP, 98, EQ, 99>>), Str(<<195, 169>>), Str(<<43>>), Str(<<PCT, 52, 49>>), Str(<<A, 10, 98>>), Str(<<>>), Str(<<59>>)}
 Forms == {Obj(<<a, n, l, d>>) : a \in FormStrs, n \in {Absent, IntV(7)}, l \in {Absent, Arr(<<Str(<<112>>), Str(<<113, COMMA, 114>>)>>)}, d \in {Absent, Str(<<122>>)}}
@@ -26,7 +32,7 @@ Resps == {[v |-> v, k |-> 0, hdr |-> h] : v \in {"ok200"}, h \in {Absent, Str(<<
          \cup {[v |-> v, k |-> k, hdr |-> h] : v \in {"pat4XX", "default"}, k \in RespCodes, h \in {Absent, Str(<<104, 52>>)}}
 EmitOut ==
   CASE Mode = "rows" -> SetToSeq(Rows)
-    [] Mode = "vals" -> SetToSeq(UNION {{[shape |-> sh, ty |-> ty, v |-> v] : v \in ValsOf(sh, ty)} : sh \in Shapes, ty \in {"str"}} \cup {[shape |-> "prim", ty |-> ty, v |-> v] : <<ty, v>> \in UNION {{<<t, w>> : w \in ValsOf("prim", t)} : t \in {"int", "num", "dt"}}})
+    [] Mode = "vals" -> SetToSeq(UNION {{[shape |-> sh, ty |-> ty, v |-> v] : v \in ValsOf(sh, ty)} : sh \in Shapes, ty \in {"str"}} \cup {[shape |-> "prim", ty |-> ty, v |-> v] : <<ty, v>> \in UNION {{<<t, w>> : w \in ValsOf("prim", t)} : t \in {"int", "num", "dt", "date"}}})
     [] Mode = "bodies" -> SetToSeq({[b |-> b] : b \in Bodies})
     [] Mode = "resps" -> SetToSeq(Resps)
     [] Mode = "forms" -> SetToSeq({[b |-> b] : b \in Forms})
